@@ -1,5 +1,6 @@
 import NA.Model.IosEngine
 import NA.Model.IosEngineHyp
+import NA.Model.IosEngineRoutes
 import NA.Spec.IosCfgDev
 import NA.Core.IOUtil
 /-!
@@ -15,6 +16,8 @@ Input: one case per line, tab separated `key=value` fields
 Output: tab separated
   rej=0|1  valid=…  msgs=m1|m2  script=l1|l2|…  hits=h:n,…  exec=ok|rejected@k:why  final=<dump>
   wf=0|1   the decidable hypothesis `NA.F2.wfB` of the end-to-end theorem `ios_F2_converges_partial`
+  settled=0|1 settledwhy=…   `NA.F2.settledB` (ios_F2_quiet)
+  routekeys=0|1 routeshape=0|1 routecmds=N   `NA.Route.phaseA`/`phaseB` on the route commands of the script
 -/
 namespace NA.Drv.C02
 open NA.F2 NA.IOUtil
@@ -111,6 +114,10 @@ def answer (line : String) : String :=
       -- hypothesis of `ios_F2_quiet`: the device is statically settled
       "settled=" ++ (if settledB a b sc then "1" else "0"),
       "settledwhy=" ++ settledWhy a b sc,
+      -- hypotheses of `NA.Route.routes_covered` on the route commands of the script (`ios_route_plan_phases`)
+      "routekeys=" ++ (if routeKeysOK a b then "1" else "0"),
+      "routeshape=" ++ (if routeShape a b r.script then "1" else "0"),
+      "routecmds=" ++ toString (r.script.flatMap chgRouteOp).length,
       "final=" ++ NA.IosDev2.dump ex.1]
 
 end NA.Drv.C02
